@@ -356,7 +356,10 @@ DoHang(s, e) ==
   LET k == "call_did_not_return_" \o e.op
       s1 == IF e.op = "wait" THEN V(s, "C20", k) ELSE V(s, "C10", k)
       s2 == IF e.op = "wait" /\ s.closed THEN V(s1, "C10", k) ELSE s1
-  IN [s2 EXCEPT !.hangs = s.hangs + 1]
+      \* the loading driver never closes the cache: a call that does not return there is a key or shard
+      \* left blocked by a load (C13)
+      s3 == IF s.mode = "load" /\ ~s.closed THEN V(s2, "C13", k) ELSE s2
+  IN [s3 EXCEPT !.hangs = s.hangs + 1]
 
 DoEnd(s, e) == [s EXCEPT !.stuck = s.stuck + e.stuck, !.skipped = s.skipped + e.skipped]
 
